@@ -10,6 +10,7 @@ import sys
 HERE = os.path.dirname(os.path.dirname(os.path.abspath(__file__)))
 
 SET_ASIDE = {
+    "C04": ["complex numbers as signature numbers (get_key(1+0j) raising TypeError)", "intervals.unison ignoring its key argument", "non-string keys"],
     "C05": ["Chromatic.descending being respelled with flats (compared by pitch)", "scale == None raising AttributeError", "degree(8) on a one-octave scale raising IndexError",
             "minor-family classes lower-casing a tonic such as 'AB'"],
     "C06": ["aliases assembled by successive replace() calls ('G-a')", "'NC' as the left polychord operand", "RecursionError for strings with about a thousand basses or polychord operands",
@@ -20,16 +21,16 @@ SET_ASIDE = {
             "the aliases i, iv, v not existing", "unknown suffixes such as 'IX' or 'Imin7' raising KeyError", "tuple_to_string for more than six accidentals", "substitute_diminished_for_dominant (undocumented)"],
     "C09": ["subtract(a, a) raising ZeroDivisionError", "dotted tuplets", "values outside [0.125, 256)", "valid_beat_duration being slow on integers with 10^5 digits", "complex or Decimal arguments", "values below 0.25 that match nothing being reported with base 128", "septuplet(b, False) analysed as 7:4 of b/2"],
     "C10": ["octave text such as 'C- 4' or 'C-+4' accepted because int() tolerates it", "repr() includes quote characters", "which exception class rejects a malformed text (IndexError / ValueError / NoteFormatError)",
-            "loose octave marks in Helmholtz text after the accidentals", "set_note with both a dynamics dict and keyword velocity/channel: which of the two wins", "re-invoking __init__ on a live note"],
+            "loose octave marks in Helmholtz text after the accidentals", "set_note with both a dynamics dict and keyword velocity/channel: which of the two wins", "re-invoking __init__ on a live note", "Helmholtz text with an accidental after the octave marks (c'b read as Cb-4): the reader is lenient about the order of signs and marks"],
     "C11": ["names that mix sharps and flats (C#b) are not restored by up-then-down or augment-then-diminish", "objects the caller stores twice are operated on twice",
             "names with four or more accidentals are not restored by up-then-down", "transposing below C-0 giving a negative octave", "interval shorthands whose size is outside 0-11 wrapping by an octave", "strings that are not interval shorthands at all ('8', '0', 'x') leaving name False before raising"],
     "C12": ["augmented seventh '#7' collapsing onto the root", "is_dissonant meaning 'some pair is dissonant'", "container[i] = note not re-sorting", "remove_notes([['C', 4]]) raising TypeError",
-            "container == list of strings raising", "removal by text with an octave ('B#-3') being by name and octave, so it does not remove an enharmonic C-4 although 'B#-3' in container is True", "add_notes(['E','H']) raising with E already added; the from_*_shorthand constructors emptying the container before failing"],
+            "container == list of strings raising", "removal by text with an octave ('B#-3') being by name and octave, so it does not remove an enharmonic C-4 although 'B#-3' in container is True", "add_notes(['E','H']) raising with E already added; the from_*_shorthand constructors emptying the container before failing", "a None flag given to is_consonant / is_perfect_consonant being read as 'no flag given'", "remove_notes([... a bad element]) raising with earlier elements already removed"],
     "C13": ["absolute tolerance at extreme bar lengths (units >= 2**30, bars longer than 500 whole notes)", "the same NoteContainer object placed twice being edited twice", "set_meter with units >= 2**1024",
             "place_notes not validating negative, zero, infinite or NaN values", "a tuple stored raw", "place_notes_at on a rest raising TypeError", "remove_last_entry on an empty bar raising IndexError",
             "change_note_duration (not part of the property)"],
     "C14": ["is_full's 0.001 tolerance letting a new bar open at 1343/1344", "add_bar by the caller while the last bar is not full", "track / bar equality ignoring key and meter", "Track() == None raising",
-            "negative, infinite or NaN values", "a guitar refusing chords of more than six notes", "from_chords with a tuning set", "Composition + x returning None", "duplicate indices in selected_tracks placing the note twice", "a zero-length (0, 4) meter with from_chords raising ZeroDivisionError"],
+            "negative, infinite or NaN values", "a guitar refusing chords of more than six notes", "from_chords with a tuning set", "Composition + x returning None", "duplicate indices in selected_tracks placing the note twice", "a zero-length (0, 4) meter with from_chords raising ZeroDivisionError", "values whose reciprocal has a denominator above 10**6 leaving a remainder of about 1e-12 that from_chords carries into a new bar"],
     "C15": ["from_shorthand(s, slash=list) appending to the caller's list (internal parameter)", "containers storing the caller's own objects by reference", "tunings.get_tuning returning the registry's own object",
             "a new bar sharing the previous bar's Key object (Key has no mutator)"],
     "C16": ["velocity 0 note-ons", "rests at the very end of a file not reflected in end-of-track", "tempo values that do not fit three bytes, float bpm, bpm 0 (refused with an error)",
@@ -37,11 +38,11 @@ SET_ASIDE = {
     "C17": ["written trailing rests are lost", "the instrument of a track without sounding notes", "bpm above 1000", "an empty Composition written at 90 bpm reading back at 120",
             "a file truncated inside a chunk's length field", "non-ASCII track names"],
     "C18": ["tracks with different numbers of bars or different meters played in parallel", "free-time (0,0) bars in play_Bars", "instrument announced as names.index(name) rather than instrument_nr",
-            "non-integral or NaN control change values", "zero tracks; bpm 0 or negative"],
+            "non-integral or NaN control change values", "zero tracks; bpm 0 or negative", "observers that send commands to the sequencer from inside a handler (nested dispatch reaches later observers first)", "time points closer than 1e-5 whole notes merged by play_Bars"],
     "C19": ["control characters in titles", "MusicXML schema matters (type names, element order)", "values outside the vocabulary such as 0.8", r"\time 0/0 for free-time bars", "the encoding used by write_Composition"],
     "C20": ["two-digit frets at widths that give an entry a single column", "the beat-marker line being longer than the string lines", "get_Note with inf / nan / float frets",
             "get_tunings('cello') leaving out 'Cello banjo' (completeness of lookup)", "string / fret hints ignored by tablature.from_NoteContainer", "find_chord_fingering raising IndexError when there is no fingering",
-            "all-open chord fingerings never returned", "one-string tunings"],
+            "all-open chord fingerings never returned", "one-string tunings", "find_fingering([]) returning [] rather than [[]]", "a space before a one-digit fret beside a two-digit one in from_Bar", "fingers_needed counting muted strings as fingers"],
 }
 
 
